@@ -1,10 +1,14 @@
 #!/bin/bash
-# usage: eval_seeded.sh <PROP> <patch.diff> [extra check args]  -- applies a seeded change to /repo, runs the check, reverts
+# usage: eval_seeded.sh <PROP> <patch.diff> [extra check args]
+# evaluates a seeded change WITHOUT touching /repo: a scratch worktree of /repo's HEAD + working-tree state gets the patch and the
+# check is pointed at it with the developer switch VERIF_ALT_REPO (evidence goes to <worktree>/.verif_evidence, not to /verif/evidence)
 P=$1; PATCH=$2; shift 2
-cd /repo && git diff --quiet || { echo "/repo not clean"; exit 9; }
-git -C /repo apply "$PATCH" || { echo "apply failed"; exit 9; }
-cd /verif && ./bin/check $P --tier ${TIER:-quick} "$@" > /tmp/eval_$P.log 2>&1; rc=$?
-git -C /repo checkout -- .
-echo "exit=$rc $(grep -c '^VIOLATION' /tmp/eval_$P.log) violation lines; $(tail -1 /tmp/eval_$P.log | cut -c1-200)"
-grep "^VIOLATION" -A1 /tmp/eval_$P.log | grep "case=" | head -3 | cut -c1-260
+WT=$(mktemp -d /tmp/evalwt_XXXXXX); rmdir $WT
+git -C /repo worktree add -q --detach $WT HEAD || exit 9
+git -C $WT apply "$PATCH" || { echo "apply failed"; git -C /repo worktree remove --force $WT; exit 9; }
+LOG=/tmp/eval_${P}_$(basename $(dirname $PATCH)).log
+cd /verif && VERIF_ALT_REPO=$WT ./bin/check $P --tier ${TIER:-quick} "$@" > $LOG 2>&1; rc=$?
+git -C /repo worktree remove --force $WT
+echo "exit=$rc $(grep -c '^VIOLATION' $LOG) violation lines; $(tail -1 $LOG | cut -c1-200)"
+grep "^VIOLATION" -A1 $LOG | grep "case=" | head -3 | cut -c1-260
 exit $rc
